@@ -278,14 +278,24 @@ class SrcGen:
             ptypes[r.randrange(np_)] = ptypes[0]
         if np_ and r.random() < 0.2:
             ptypes[-1] = "..." + ptypes[-1]
-        if named:
-            pn = self.names(np_)
-            ps = ", ".join("%s %s" % (a, b) for a, b in zip(pn, ptypes))
-        else:
-            ps = ", ".join(ptypes)
         rtypes = [self.typ(depth, tparams=tparams) for _ in range(nr)]
         if nr >= 2 and r.random() < 0.4:
             rtypes[-1] = "error"
+        if named:
+            pn = self.names(np_)
+            # a parameter called like a package the signature mentions – in the results only, in a
+            # later parameter, or in its own type
+            quals = re.findall(r"\b([A-Za-z_]\w*)\.[A-Z]", " ".join(rtypes if r.random() < 0.5 else ptypes + rtypes))
+            if pn and quals and r.random() < 0.3:
+                q = r.choice(quals)
+                if q not in pn:
+                    k = r.randrange(len(pn))
+                    self.sig_taken.discard(pn[k])
+                    pn[k] = q
+                    self.sig_taken.add(q)
+            ps = ", ".join("%s %s" % (a, b) for a, b in zip(pn, ptypes))
+        else:
+            ps = ", ".join(ptypes)
         rnamed = nr > 0 and r.random() < 0.3
         if rnamed:
             rn = self.names(nr)
@@ -315,6 +325,12 @@ class SrcGen:
             self.focus = [l for l in libs if l[1] == nm] + self.focus[:2]
         files = {}
         ifaces = []
+        # the package clause: usually the directory name; sometimes the name of a package the
+        # mock will also import (sync above all: every mock with a method imports it)
+        self.prev_methods = set()
+        self.clause = name
+        if r.random() < 0.08:
+            self.clause = r.choice(["sync", "sync", "foo", "bar", "context", "http", "template"])
         nfiles = r.choice([1, 1, 2])
         nif = r.choice([1, 1, 2, 3])
         # optional dependency package providing transitive (un-aliased) imports
@@ -391,7 +407,7 @@ class SrcGen:
                         body.append("var _ %s.T\n" % al)
                         self.quals.add(al)
             r.shuffle(imps)
-            text = "package %s\n\n" % name
+            text = "package %s\n\n" % self.clause
             if imps or extra:
                 text += "import (\n" + "".join("\t%s\n" % i for i in imps + extra) + ")\n\n"
             text += "\n".join(body)
@@ -440,9 +456,13 @@ class SrcGen:
                     cons.append("~int | ~string")
                 elif c < 0.87:
                     cons.append("interface{ int | int64 }")
-                elif c < 0.92:
-                    rel, nm, _ = r.choice([l for l in LIB if not l[2] and l[0] != "dotimp"])
-                    cons.append(self.qual(MOD + "/" + rel, nm) + r.choice([".C", ".MC"]))
+                elif c < 0.97:
+                    # a constraint declared in another package, preferably one of the same-named
+                    # packages this source package concentrates on
+                    cands = [l for l in getattr(self, "focus", []) if not l[2] and l[0] != "dotimp"] or \
+                            [l for l in LIB if not l[2] and l[0] != "dotimp"]
+                    rel, nm, _ = r.choice(cands)
+                    cons.append(self.qual(MOD + "/" + rel, nm) + r.choice([".C", ".MC", ".MC"]))
                 elif self.adv:
                     cons.append(r.choice(["comparable", "interface{ LN | int }", "interface{ ~[]%s }" % tparams[0]]))
                 else:
@@ -451,6 +471,15 @@ class SrcGen:
         nm = r.choice([0, 1, 1, 2, 2, 3, 4, 5])
         pool = METHOD_NAMES + (ADV_METHOD_NAMES if self.adv else [])
         mnames = r.sample(pool, nm)
+        # names that read like helpers of a method of an *earlier* interface of the package
+        # (different receiver types: no clash, and every mock keeps all of its own helpers)
+        prev = sorted(getattr(self, "prev_methods", set()) - set(mnames))
+        if prev and r.random() < 0.35:
+            m0 = r.choice(prev)
+            extra_name = r.choice(["Reset%s", "Reset%sCalls", "%sCalls", "%sFunc"]) % m0 if r.random() < 0.9 else "Reset"
+            if extra_name not in mnames and all(extra_name != x + "Calls" and extra_name != "Reset" + x + "Calls" for x in mnames):
+                mnames.append(extra_name)
+        self.prev_methods = getattr(self, "prev_methods", set()) | set(mnames)
         lines = []
         for m in mnames:
             lines.append("\t%s%s" % (m, self.sig(r.choice([0, 1, 1, 2, 3]), tparams=tparams)))
@@ -490,14 +519,53 @@ def alias_disagreement_case(rnd, name):
     return {"%s/a.go" % name: fa, "%s/b.go" % name: fb}, ["IAD"]
 
 
+def late_rename_case(rnd, name):
+    """Two same-named packages met one after the other: interface First (file a) mentions package P
+    everywhere a qualifier is printed – parameters, a variadic tail, results, a type-parameter
+    constraint, an embedded interface –, interface Second (file b) mentions Q, which has the same
+    name.  Registering Q renames P *after* First has been analysed: whatever was computed from P's
+    qualifier too early is stale."""
+    by_name = {}
+    for rel, nm, adv in LIB:
+        if not adv and rel != "dotimp":
+            by_name.setdefault(nm, []).append(rel)
+    nm = rnd.choice([k for k, v in by_name.items() if len(v) >= 2])
+    rp, rq = rnd.sample(by_name[nm], 2)
+    generic = rnd.random() < 0.5
+    tdecl = "[K %s.%s, V any]" % (nm, rnd.choice(["MC", "C", "MC"])) if generic else ""
+    k = "K" if generic else "int"
+    ms = []
+    if rnd.random() < 0.7:
+        ms.append("\tPut(k %s, opts ...%s.T) %s.N" % (k, nm, nm))
+    if rnd.random() < 0.5:
+        ms.append("\tAll(%s...%s) []%s.T" % (rnd.choice(["", "xs "]), rnd.choice(["*%s.T" % nm, "%s.F" % nm, "any"]), nm))
+    if rnd.random() < 0.5:
+        ms.append("\tConv(%s.A) (%s.S, error)" % (nm, nm))
+    if rnd.random() < 0.3 and not generic:
+        ms.append("\t%s.I" % nm)
+    if not ms:
+        ms.append("\tOne(%s.T)" % nm)
+    fa = ('package %s\n\nimport "%s/%s"\n\n// First meets package %s first.\ntype First%s interface {\n%s\n}\n'
+          % (name, MOD, rp, nm, tdecl, "\n".join(ms)))
+    second = rnd.choice(["\tGet(x %s.T) %s.S" % (nm, nm), "\tGet(%s.N)" % nm, "\t%s.I" % nm])
+    fb = ('package %s\n\nimport "%s/%s"\n\n// Second brings the other package called %s.\ntype Second interface {\n%s\n}\n'
+          % (name, MOD, rq, nm, second))
+    return {"%s/a.go" % name: fa, "%s/b.go" % name: fb}, ["First", "Second"]
+
+
 def make_cases(rnd, root, n, adversarial=False, prefix="src"):
     """Writes n source packages under root; returns list of dicts {dir, ifaces}."""
     out = []
     for i in range(n):
         g = SrcGen(rnd, adversarial=adversarial)
         name = "%s%d" % (prefix, i)
-        if rnd.random() < 0.06:
+        ordsens = rnd.random() < 0.08
+        g.clause = name
+        late = not ordsens and rnd.random() < 0.08
+        if ordsens:
             files, ifaces = alias_disagreement_case(rnd, name)
+        elif late:
+            files, ifaces = late_rename_case(rnd, name)
         else:
             files, ifaces = g.package(name)
         for rel, text in files.items():
@@ -505,7 +573,7 @@ def make_cases(rnd, root, n, adversarial=False, prefix="src"):
             os.makedirs(os.path.dirname(p), exist_ok=True)
             with open(p, "w") as f:
                 f.write(text)
-        out.append({"dir": name, "ifaces": ifaces, "adv": adversarial,
+        out.append({"dir": name, "ifaces": ifaces, "adv": adversarial, "ordsens": ordsens, "ordered": late, "pkgname": g.clause,
                     "named": any(re.search(r'^\s*[A-Za-z_]\w* "', t, re.M) for t in files.values())})
     return out
 
@@ -518,6 +586,8 @@ def configs_for(rnd, case, k):
         ifs = list(case["ifaces"])
         rnd.shuffle(ifs)
         ifs = ifs[: rnd.randrange(1, len(ifs) + 1)]
+        if case.get("ordered") and j < 2:
+            ifs = list(case["ifaces"])       # directed cases: the declared order, twice (two flag settings)
         args = []
         for x in ifs:
             c = rnd.random()
@@ -525,7 +595,11 @@ def configs_for(rnd, case, k):
                 args.append(x + ":" + rnd.choice(["My%s", "%sStub", "Fake%s", "%sDouble"]) % x)
             else:
                 args.append(x)
-        pkg = rnd.choice(["", "", "", name, "other", name + "_test", "other2", "pkgx"])
+        # an argument moq must reject, at a random position: unknown name, or a non-interface
+        if rnd.random() < 0.05:
+            args.insert(rnd.randrange(len(args) + 1), rnd.choice(["Nope", "T", "N", "nope:Fake"]))
+        pn = case.get("pkgname", name)
+        pkg = rnd.choice(["", "", "", pn, "other", pn + "_test", "other2", "pkgx"])
         out.append({"dir": name, "pkg": pkg, "stub": rnd.random() < 0.5, "skip": rnd.random() < 0.35,
                     "resets": rnd.random() < 0.5, "args": args})
     return out
